@@ -1,4 +1,4 @@
-"""C04 — jobs follow the lifecycle and complete at most once: LIFECYCLE half proved here, TALLY half in Props_C06.v (partial).
+"""C04 — jobs follow the lifecycle and complete at most once: lifecycle half by JobChange.v, tally half by the C06 tally invariant (TallyInv.v).
 
 Tie: X (shared family correspondence: model step ~ real SQL routines + handlers on minisql, after every op).
 Proof: coq/theories/BatchDB/JobChange.v on top of the dependency invariant DInv (DepsDef.v, Deps.v: reachable in every
@@ -32,9 +32,11 @@ META = dict(
                '(2) Over all good histories: C04_transitions (every consecutive state pair of every job is allowed), C04_terminal_absorbing '
                '(a job that is terminal after a prefix has the same state after every good extension: it completes at most once however often '
                'or late completion is reported), C04_pending_never_starts (a Pending job is Pending or Ready after one more transaction) and '
-               'C04_pending_passes_ready (it is seen Ready before it is seen in any other state). NOT proved in this file: "each job is counted '
-               'exactly once in its batch\'s and groups\' completed/succeeded/failed/cancelled tallies" - that is the tallies invariant of C06 '
-               '(Props_C06.v); the oracle of this check nevertheless recounts the tallies on the implementation after every op.',
+               'C04_pending_passes_ready (it is seen Ready before it is seen in any other state). (3) Tallies: after every good history the completed / succeeded / failed / cancelled numbers of every group (the batch reads '
+               'its root group) are the number of rows of the jobs table in the group\'s subtree in that state (C04_tallies_count_each_job_once, '
+               'from the C06 tally invariant TallyInv.reach_counts) - so with terminal states absorbing, each job is counted exactly once however '
+               'many repeated, late or stale reports the history contains - and from any state a report for an already terminal job or with a '
+               'stale attempt id changes no job, group or batch row (C04_repeated_or_stale_completion_changes_nothing).',
     level_note='Trusted: Coq kernel; the sampled model-vs-implementation correspondence and the minisql engine; Legal.v + DepsDef.client_ok '
                '(the hypotheses of `good`: job-directed driver/worker messages name jobs of committed updates, a completion names a terminal '
                'state, updates are committed in order, job-group bunches are schema-valid). A job is identified by its key (batch, job id) as '
@@ -42,7 +44,7 @@ META = dict(
                'or lies under a cancelled group never enters Creating/Running in any later good step (the mark and "under a cancelled group" are '
                'monotone), a job of an uncommitted update stays attempt-less and Pending/Ready, an always_run Ready job is moved to Running by '
                'ScheduleJob with a fresh attempt on an active instance whatever its cancellation marks.',
-    partial=True,
+    partial=False,
 )
 TRUSTED = family.COMMON_TRUSTED + []
 ASSUMPTIONS = family.COMMON_ASSUMPTIONS + [
